@@ -26,6 +26,8 @@ var c14Pool = []string{
 	// other pool members (table lookups that could remember their neighbour)
 	"MOV AL,[0x1234]", "MOV [0x1234],AX", "MOV EAX,[0x1234]", "MOV AX,[SI]", "MOV [BX],AX", "MOV EAX,[EBX]",
 	"MOV CL,AL", "CMP CL,5", "ADD BX,AX", "MOV ECX,EAX", "ADD AX,1000", "PUSH 1000", "IMUL CX,1000", "IMUL ECX,4608", "IMUL ECX,4",
+	// statements the encoder rejects (diagnosed, nothing emitted): they must not take their neighbours with them
+	"OUT 0x03d4,AL", "PUSH AL", "IN BL,DX", "ADD AX,[BX+CX]",
 }
 
 // c14Related: statements more likely to interfere through shared lookup
@@ -99,12 +101,14 @@ func VC14() {
 	vrt.NoteBytes("out_a", oa)
 	vrt.NoteBytes("out_b", ob)
 	vrt.NoteBytes("out_ab", oab)
-	if oca != "ok" || ocb != "ok" || da || db {
+	if oca != "ok" || ocb != "ok" {
 		vrt.Reach("c14.rejected")
 		return
 	}
 	vrt.Reach("c14.accepted")
-	ok := ocab == "ok" && !dab && len(oab) == len(oa)+len(ob)
+	// (a diagnosed statement contributes whatever it contributes alone —
+	// usually nothing — and the joint run is diagnosed exactly when a part is)
+	ok := ocab == "ok" && dab == (da || db) && len(oab) == len(oa)+len(ob)
 	if ok {
 		ok = string(oab[:len(oa)]) == string(oa) && string(oab[len(oa):]) == string(ob)
 	}
@@ -170,7 +174,9 @@ func VC14Sym() {
 // of the next one.
 func VC14Equ() {
 	mode := []int{16, 32}[vrt.Choose("mode", 2)]
-	pool := []string{"MOV AX,FOO*2", "MOV BX,FOO", "DB FOO*5", "ADD DX,FOO", "DW FOO", "DD FOO/2", "MOV CL,FOO%2", "MOV AL,[BX+FOO]", "DW FOO+1", "CMP AX,FOO*FOO"}
+	pool := []string{"MOV AX,FOO*2", "MOV BX,FOO", "DB FOO*5", "ADD DX,FOO", "DW FOO", "DD FOO/2", "MOV CL,FOO%2", "MOV AL,[BX+FOO]", "DW FOO+1", "CMP AX,FOO*FOO",
+		// self-contained sequences that (re)define their own name
+		"CNT EQU 3\nMOV CX,CNT\nDB CNT", "CNT EQU 4\nMOV CX,CNT\nDB CNT"}
 	a := vrt.ChooseStr("a", pool)
 	b := vrt.ChooseStr("b", pool)
 	pre := "FOO EQU 3\n"
